@@ -467,6 +467,10 @@ class Evaluator:
             return self.num(n["e"], env)
         if k == "MCall" and n["m"] in ("clone", "to_owned") and not n["args"]:
             return self.num(n["recv"], env)
+        if k == "MCall" and n["m"] in ("saturating_sub", "saturating_add", "wrapping_sub", "wrapping_add", "min", "max") and len(n["args"]) == 1:
+            a, b = self.num(n["recv"], env), self.num(n["args"][0], env)
+            return {"saturating_sub": max(a - b, 0), "saturating_add": a + b, "wrapping_sub": a - b, "wrapping_add": a + b,
+                    "min": min(a, b), "max": max(a, b)}[n["m"]]
         if k == "Match" and n.get("src") == "Normal":
             v = self.num(n["scrut"], env)
             for a in match_arms(n):
